@@ -300,8 +300,8 @@ PROPS["C15"] = dict(
 
 PROPS["C16"] = dict(
     pkg="sdl", test="TestC16", engine="sdl",
-    quick=dict(checks=3600, shards=4), thorough=dict(checks=96000, shards=16), timeout=dict(quick=600, thorough=3000),
-    nt_floor=dict(quick=1400, thorough=50000),
+    quick=dict(checks=7200, shards=8), thorough=dict(checks=96000, shards=16), timeout=dict(quick=600, thorough=3000),
+    nt_floor=dict(quick=2800, thorough=50000),
     must_classes=["split-into-several-loads", "members-in-extend-blocks", "split+extend", "well-formed-set", "ill-formed-set", "ill-formed-all-rejected", "docs=3", "docs=4"],
     level="exploration",
     technique="metamorphic property testing: one generated definition set rendered in five arrangements (plain, permuted, split into 1-4 successive loads, members moved into extend blocks, both); accept/reject, canonical schema description, introspection and fixed requests must agree",
